@@ -3,7 +3,7 @@ import CalVerif.Model.Biff
 import CalVerif.Spec.BiffEnc
 /-! Driver for C02 (BIFF8 cell records). One request line → one reply line.
 
-    rk <w>                                  → `I<int>` | `F<16 hex>`            (`rkNum` under the native float ops)
+    rk <w>                                  → `I<int>` | `F<16 hex>`            (`rkNum`: `v as f64` = `De.intToF64`, `/ 100.0` native)
     rkspec <w>                              → same, through `rkSpec`
     sweep <start> <count> <stride>          → FNV-64 (decimal) over the canonical 9-byte forms of
                                               `rkNum (start + i·stride)`, i < count
@@ -26,7 +26,6 @@ import CalVerif.Spec.BiffEnc
 open Biff BiffCells
 
 def nativeOps : FOps where
-  i2f := fun v => (Float.ofInt v).toBits.toNat
   div100 := fun b =>
     -- `Float.toBits` canonicalises NaNs; the hardware division keeps sign and payload and sets the quiet bit
     if b / 4503599627370496 % 2048 = 2047 ∧ b % 4503599627370496 ≠ 0 then b ||| 0x0008000000000000
@@ -50,7 +49,7 @@ def showVal : Val → String
   | .str s => s!"S{showScalars s}"
   | .bool b => if b then "B1" else "B0"
   | .error k => s!"E{kindName k}"
-  | .dt b k f => s!"D{hex16 b}/{match k with | .dateTime => "d" | .timeDelta => "t"}/{if f then 1 else 0}"
+  | .dt b k f => s!"D{hex16 b}/{match k with | Formats.DtKind.dateTime => "d" | Formats.DtKind.timeDelta => "t"}/{if f then 1 else 0}"
 
 def showNum : Num → String
   | .int v => s!"I{v}"
@@ -115,12 +114,12 @@ def parseSst (s : String) : Option (List (List Nat)) :=
   if s = "-" then some []
   else (s.splitOn "/").mapM fun x => if x = "_" then some [] else parseScalars x
 
-def parseFmts (s : String) : Option (List Fmt) :=
+def parseFmts (s : String) : Option (List CellFormat) :=
   if s = "-" then some []
   else s.toList.mapM fun c =>
-    if c = 'o' then some Fmt.other else if c = 'd' then some Fmt.dateTime else if c = 't' then some Fmt.timeDelta else none
+    if c = 'o' then some CellFormat.other else if c = 'd' then some CellFormat.dateTime else if c = 't' then some CellFormat.timeDelta else none
 
-def mkEnv (fmts : List Fmt) (is1904 : Bool) (sst : List (List Nat)) : Env :=
+def mkEnv (fmts : List CellFormat) (is1904 : Bool) (sst : List (List Nat)) : Env :=
   { ops := nativeOps, fmts := fmts, is1904 := is1904, strings := sst }
 
 def parseJunk (s : String) : Option (List Rec) :=
